@@ -3,10 +3,10 @@ CONSTANTS
   Leaves <- LeavesFull
   Keys <- KeysSmall
   MaxWidth2 = 2
-  MaxNodes = 7
+  MaxNodes = 5
   MaxDepth2 = 2
   Indents = {0, 2}
-  MaxLimit = 4
+  MaxLimit = 3
   FlushAfterComma = FALSE
 INVARIANTS Safe LimitFree Denotes Drained
 CHECK_DEADLOCK FALSE
